@@ -11,6 +11,7 @@ logarithmic part.
 
 Code modelled (gpytorch/mlls, gpytorch/distributions):
 * `MultivariateNormal.log_prob`                                   → `logNormal`
+* its gradient w.r.t. any hyperparameter (what autograd must return) → `gradParts?`, `gradAssemble`
 * `ExactMarginalLogLikelihood.forward` / `_add_other_terms`       → `mll`, `priorReduce`
 * `LeaveOneOutPseudoLikelihood.forward`                           → `looCode`, `looObjective`
 * `SumMarginalLogLikelihood.forward`                              → `sumMll`
@@ -37,7 +38,20 @@ def quad? (A : DMat n n α) (r : Fin n → α) : Option α := (A.inv?).map fun X
 /-- `det A` through the certified `L·D·Lᵀ` factorisation. -/
 def det? (A : DMat n n α) : Option α := (A.ldl?).map fun Ld => ∏ i, Ld.2 i
 
+/-- The three exact pieces of the gradient of `log N(y | μ, A)` w.r.t. a hyperparameter along which the covariance
+moves with derivative `D` and the mean with derivative `dμ` (`r = y − μ`), through the certified inverse `X = A⁻¹`:
+`(rᵀ X D X r,  tr(X D),  dμᵀ X r)`. -/
+def gradParts? (A D : DMat n n α) (r dμ : Fin n → α) : Option (α × α × α) :=
+  (A.inv?).map fun X =>
+    let w : Fin n → α := X.toMatrix *ᵥ r
+    let wl : Fin n → α := r ᵥ* X.toMatrix
+    (wl ⬝ᵥ (D.toMatrix *ᵥ w), (X.toMatrix * D.toMatrix).trace, dμ ⬝ᵥ w)
+
 end exact
+
+/-- gradient of the Gaussian log density from its three pieces: `½ rᵀXDXr − ½ tr(XD) + dμᵀXr`. -/
+def gradAssemble [Add α] [Sub α] [Mul α] (half : α) (p : α × α × α) : α :=
+  half * p.1 - half * p.2.1 + p.2.2
 
 /-- `log N(y | m, A) = −½ (rᵀA⁻¹r + log det A + n log 2π)`, from `quad = rᵀA⁻¹r` and `logdet`. -/
 def logNormal [Add α] [Mul α] [Neg α] [NatCast α] (half log2pi : α) (n : Nat) (quad logdet : α) : α :=
